@@ -468,10 +468,10 @@ func c11AtomSub() *engine.Sub {
 		byName[d.Name] = d
 	}
 	return &engine.Sub{
-		Name: "atoms-truth",
+		Name:   "atoms-truth",
 		Repeat: true,
-		Rule: "every comparison atom (5 operators x 6 selectors x 9 literals) and like atom (6 selectors x 6 patterns) as a top-level statement, on every datum {a in 21 values, b in 3, l in 2}: if the selector resolves, Match = PartialMatch = classical truth (same-kind numbers only; an ordering statement with a NaN operand is false; infinite operands of ordering operators and == on NaN are don't-care); if required data is missing Match=false and PartialMatch=true; if optional data is missing both are true; non-trivial = selector resolves",
-		Bound: func(string) string { return fmt.Sprintf("306 atoms x %d data", len(data)) },
+		Rule:   "every comparison atom (5 operators x 6 selectors x 9 literals) and like atom (6 selectors x 6 patterns) as a top-level statement, on every datum {a in 21 values, b in 3, l in 2}: if the selector resolves, Match = PartialMatch = classical truth (same-kind numbers only; an ordering statement with a NaN operand is false; infinite operands of ordering operators and == on NaN are don't-care); if required data is missing Match=false and PartialMatch=true; if optional data is missing both are true; non-trivial = selector resolves",
+		Bound:  func(string) string { return fmt.Sprintf("306 atoms x %d data", len(data)) },
 		Gen: func(tier string, emit func(any) bool) {
 			for _, a := range c11Atoms() {
 				if !emit(&c11Case{S: a}) {
@@ -872,8 +872,8 @@ func c11ConcatSub() *engine.Sub {
 		return r
 	}
 	return &engine.Sub{
-		Name: "policy-concatenation",
-		Rule: "every ordered pair and triple of statements from a 60-statement set as policies p=[s], q=[t]: Match(p++q) = Match(p) and Match(q), PartialMatch likewise; the empty policy matches; non-trivial = all pairs",
+		Name:  "policy-concatenation",
+		Rule:  "every ordered pair and triple of statements from a 60-statement set as policies p=[s], q=[t]: Match(p++q) = Match(p) and Match(q), PartialMatch likewise; the empty policy matches; non-trivial = all pairs",
 		Bound: func(string) string { return "pairs over ~60 statements x 24 data" },
 		Setup: setup,
 		Gen: func(tier string, emit func(any) bool) {
